@@ -26,6 +26,22 @@ def main():
             mod.replay(R, rep)
         else:
             mod.run(R)
+            if R.corr_breaks and not R.violations:
+                # the correspondence broke but no generated case violated the property's direct oracle: widen the
+                # failing-input search with fresh seeds before reporting `no-failing-input-found`
+                for extra in (1, 2, 3):
+                    R2 = Run(prop, tier, seed + 7919 * extra, mod.LEVEL)
+                    R2.audit = None
+                    try:
+                        mod.run(R2)
+                    except Infra:
+                        break
+                    R.extra["failing_input_search_extra_cases"] = R.extra.get("failing_input_search_extra_cases", 0) + R2.evaluations
+                    if R2.violations:
+                        for v in R2.violations:
+                            v["found_by"] = "widened failing-input search (seed %d)" % R2.seed
+                        R.violations.extend(R2.violations)
+                        break
         sys.exit(R.finish())
     except Infra as e:
         print(f"INFRASTRUCTURE-ERROR property={prop}: {e}", file=sys.stderr)
